@@ -340,6 +340,7 @@ pub const KF_UNIQUE_CONCURRENT: &str = "KF-unique-concurrent-inserters";
 pub const KF_UPDATE_UNIQUE_TABLE: &str = "KF-update-on-indexed-table";
 pub const KF_DROP_IN_TXN: &str = "KF-drop-table-in-transaction";
 pub const KF_ALTER: &str = "KF-alter-in-transaction";
+pub const KF_SET_NOT_NULL_UNCHECKED: &str = "KF-set-not-null-ignores-existing-nulls";
 pub const KF_ADD_COLUMN: &str = "KF-add-column-fails";
 pub const KF_DROP_COLUMN: &str = "KF-drop-column-corrupts-rows";
 pub const KF_FLUSH_ZERO_CACHE: &str = "KF-flush-zero-cache";
@@ -824,7 +825,9 @@ impl Model {
                 if set {
                     for (_, v) in self.visible_rows(t, ti) {
                         if v[ci] == Val::Null {
-                            return Err(ErrClass::NotNull);
+                            if !self.hazard(KF_SET_NOT_NULL_UNCHECKED) {
+                                return Err(ErrClass::NotNull);
+                            }
                         }
                     }
                 }
